@@ -47,6 +47,10 @@ CLAIMED = {
  'C10': ('exploration', 'crash / CPU-and-memory-budget oracle over hostile responses served to the real preprocessor+postprocessor stages in isolated child processes (structure-aware generation + mutation of valid samples)',
          'Each input is regenerable from (seed, index); the index is written to disk before the input is processed, so a panic anywhere in the (recover-less) stage workers or a spin beyond the CPU/memory budget is attributed to its input; hangs are confirmed alone with 5x the budget unless they match a listed finding.',
          'Inputs are sampled (no coverage guidance in the quick tier); "forever" is a CPU/memory budget; listed finding: pdfcpu loops forever on some mutated PDFs (third party, no small fix).', '4/C10'),
+
+ 'C14': ('exploration', 'enumeration of all call orders (bounded length) of pause/resume/stop/feed against the real stage workers, one child process per script, plus random concurrent scripts under hook-point perturbation and the race detector; structural-quiescence (stuck) oracle with goroutine dumps',
+         'The real preprocessor/postprocessor/finisher workers are the subscribers; every script ends with a verdict at quiescence: all invoked calls returned, no panic, no work taken between a worker\'s acknowledgement and its resume, no acknowledged worker left blocked by a Resume that returned.',
+         'Stage level (archiver stage and watchdogs are covered by the pipeline-level stop matrix when built); call orders enumerated to the stated length, interleavings inside the stages sampled; stuck = no event and no return over three samples.', '4/C14'),
 }
 NOT_BUILT = 'check not built yet in this session (planned, see DESIGN.md section 4)'
 
